@@ -243,6 +243,14 @@ def deviant_set(deep, seed=0):
         out.append((f'dev{side}/{base}/old_sa_child_request',
                     [['mutate', side, 'as_new_child_request', 'info', True], ['mutate', side, 'exch_36', 'info', True]]
                     + scripted(base) + tail, {}, 11, {side}))
+    # a response nobody asked for, carrying the next Message ID, while nothing is outstanding; then the honest side uses
+    # the IKE_SA (or what is left of it)
+    for side, honest in (('B', 'A'), ('A', 'B')):
+        for exch in (37, 36, 35):
+            out.append((f'dev{side}/unsolicited_response/{exch}',
+                        scripted('handshake') + [['unsolicited_response', side, exch], ['deliver', 0],
+                                                 ['acquire', honest, 84], ['deliver', 0], ['deliver', 0]] + tail,
+                        {}, 21, {side}))
     # a responder that rejects the KE group STATELESSLY (as RFC 7296 wants; pyikev2's own responder drops the IKE_SA) and
     # then accepts the retry: IKE_SA rekey and CHILD_SA creation with PFS; the new SA is used afterwards
     use = [['acquire', 'A', 83], ['deliver', 0], ['deliver', 0], ['expire', 'B', 0, 0]] + [['deliver', 0]] * 4
